@@ -25,6 +25,8 @@ Ltac spg :=
        set_tasks set_epoch set_evlists set_ev set_rw set_kern set_trace set_invoc
        emit putfd getfd].
 
+Ltac splits := repeat match goal with |- _ /\ _ => split end.
+
 (* ---------- upd ---------- *)
 Lemma upd_same : forall A (f : Z -> A) x v, upd f x v x = v.
 Proof. intros. unfold upd. rewrite Z.eqb_refl. reflexivity. Qed.
@@ -373,4 +375,276 @@ Lemma NoDup_range_length : forall l n, NoDup l -> (forall x, In x l -> 0 <= x < 
 Proof.
   intros l n ND H. rewrite <- (zseq_length n 0). apply NoDup_incl_length; [assumption|].
   intros x Hx. apply In_zseq'. apply H in Hx. lia.
+Qed.
+
+(* ---------- kernel changes that keep every descriptor's identity ---------- *)
+(* kind and pipe pairing are tracked for the descriptors created by the library (>= 1000) *)
+Record kstable (k k' : kernel) : Prop := {
+  kt_ep : ep k' = ep k; kt_next : next_fd k <= next_fd k'; kt_flt : flt k' = flt k;
+  kt_get : forall fd v, k_get k fd = Some v ->
+           exists v', k_get k' fd = Some v' /\ (vclosed v' = true -> vclosed v = true) /\
+                      (1000 <= fd -> vkind v' = vkind v /\ vpeer v' = vpeer v /\ vpeer_open v' = vpeer_open v);
+  kt_none : forall fd, k_get k fd = None -> k_get k' fd = None \/ fd < 1000 \/ next_fd k <= fd < next_fd k';
+}.
+Lemma kstable_refl : forall k, kstable k k.
+Proof. intros. constructor; try reflexivity; try (cbn; lia); [intros fd v H; exists v; tauto|tauto]. Qed.
+Lemma kstable_trans : forall a b c, kstable a b -> kstable b c -> kstable a c.
+Proof.
+  intros a b c [A1 A2 A3 A4 A5] [B1 B2 B3 B4 B5]. constructor; try congruence.
+  - lia.
+  - intros fd v H. destruct (A4 fd v H) as (v1 & C1 & C2 & C3).
+    destruct (B4 fd v1 C1) as (v2 & D1 & D2 & D3). exists v2. split; [assumption|]. split; [auto|].
+    intros Q. destruct (C3 Q) as (E1&E2&E3). destruct (D3 Q) as (F1&F2&F3). repeat split; congruence.
+  - intros fd H. destruct (A5 fd H) as [C|[C|C]]; [|right; left; assumption|right; right; lia].
+    destruct (B5 fd C) as [D|[D|D]]; [left; assumption|right; left; assumption|right; right; lia].
+Qed.
+Lemma kstable_open : forall k k' fd v, kstable k k' -> k_open k fd = Some v ->
+  exists v', k_open k' fd = Some v' /\
+             (1000 <= fd -> vkind v' = vkind v /\ vpeer v' = vpeer v /\ vpeer_open v' = vpeer_open v).
+Proof.
+  intros k k' fd v S H. apply k_open_get in H. destruct H as [G C].
+  destruct (kt_get _ _ S fd v G) as (v' & A & B & D). exists v'. split; [|assumption].
+  apply k_get_open; [assumption|]. destruct (vclosed v') eqn:Q; [|reflexivity]. rewrite B in C by reflexivity. discriminate.
+Qed.
+Lemma kstable_open_some : forall k k' fd, kstable k k' -> k_open k fd <> None -> k_open k' fd <> None.
+Proof.
+  intros k k' fd S H. destruct (k_open k fd) as [v|] eqn:Q; [|congruence].
+  destruct (kstable_open _ _ _ _ S Q) as (v' & A & _). congruence.
+Qed.
+Lemma kstable_get_some : forall k k' fd, kstable k k' -> k_get k fd <> None -> k_get k' fd <> None.
+Proof.
+  intros k k' fd S H. destruct (k_get k fd) as [v|] eqn:Q; [|congruence].
+  destruct (kt_get _ _ S fd v Q) as (v' & A & _). congruence.
+Qed.
+Lemma kstable_get_kind : forall k k' fd v, kstable k k' -> k_get k fd = Some v -> 1000 <= fd ->
+  exists v', k_get k' fd = Some v' /\ vkind v' = vkind v.
+Proof.
+  intros k k' fd v S H Q. destruct (kt_get _ _ S fd v H) as (v' & A & _ & B). exists v'. split; [assumption|apply B; assumption].
+Qed.
+
+(* rewriting one descriptor without changing its identity *)
+Lemma kstable_put : forall k fd v v', k_get k fd = Some v -> (vclosed v' = true -> vclosed v = true) ->
+  (1000 <= fd -> vkind v' = vkind v /\ vpeer v' = vpeer v /\ vpeer_open v' = vpeer_open v) ->
+  kstable k (k_put k fd v').
+Proof.
+  intros k fd v v' G A B. constructor; try reflexivity.
+  - intros fd0 v0 H. rewrite k_get_put. destruct (Z.eqb_spec fd0 fd) as [->|N].
+    + rewrite G in H. injection H as <-. exists v'. tauto.
+    + exists v0. tauto.
+  - intros fd0 H. rewrite k_get_put. destruct (Z.eqb_spec fd0 fd) as [->|N]; [congruence|tauto].
+Qed.
+Lemma kstable_clock : forall k c, kstable k (k_set_clock k c).
+Proof. intros. constructor; try reflexivity; try (cbn; lia); [intros fd v H; exists v; tauto|tauto]. Qed.
+Lemma kstable_nwait : forall k n, kstable k (k_set_nwait k n).
+Proof. intros. constructor; try reflexivity; try (cbn; lia); [intros fd v H; exists v; tauto|tauto]. Qed.
+Lemma kstable_setep_same : forall k l, l = ep k -> kstable k (k_set_ep k l).
+Proof. intros k l ->. constructor; try reflexivity; try (cbn; lia); [intros fd v H; exists v; tauto|tauto]. Qed.
+
+Lemma kstable_set_cond : forall k i c, kstable k (k_set_cond k i c).
+Proof.
+  intros. unfold k_set_cond. destruct (k_get k (100 + i)) as [v|] eqn:G; [|apply kstable_refl].
+  eapply kstable_put; [eassumption|tauto|tauto].
+Qed.
+Lemma kstable_user_fd : forall k i, i < 16 -> kstable k (k_user_fd k i).
+Proof.
+  intros k i H. unfold k_user_fd. destruct (k_get k (100 + i)) as [v|] eqn:G.
+  - eapply kstable_put; [eassumption|discriminate|lia].
+  - constructor; try reflexivity.
+    + intros fd0 v0 Q. rewrite k_get_put. destruct (Z.eqb_spec fd0 (100 + i)) as [->|N]; [congruence|exists v0; tauto].
+    + intros fd0 Q. rewrite k_get_put. destruct (Z.eqb_spec fd0 (100 + i)) as [->|N]; [right; left; lia|tauto].
+Qed.
+
+Lemma kstable_read : forall k fd c, kstable k (fst (k_read k fd c)).
+Proof.
+  intros k fd c. unfold k_read. destruct (k_open k fd) as [v|] eqn:O; [|apply kstable_refl].
+  apply k_open_get in O. destruct O as [G _].
+  destruct (vkind v =? K_EVENTFD).
+  { destruct (c <? 8); [apply kstable_refl|]. destruct (vcnt v =? 0); [apply kstable_refl|].
+    cbn [fst]. eapply kstable_put; [eassumption|tauto|tauto]. }
+  destruct (vkind v =? K_PIPE_R).
+  { destruct (vcnt v =? 0); [destruct (vpeer_open v); apply kstable_refl|].
+    cbn [fst]. eapply kstable_put; [eassumption|tauto|tauto]. }
+  destruct (vkind v =? K_TIMERFD); [|apply kstable_refl].
+  destruct (has (k_cond k fd) B_IN); [|apply kstable_refl].
+  cbn [fst]. eapply kstable_put; [eassumption|tauto|tauto].
+Qed.
+
+Lemma kstable_write : forall k fd c x, kstable k (fst (k_write k fd c x)).
+Proof.
+  intros k fd c x. unfold k_write. destruct (k_open k fd) as [v|] eqn:O; [|apply kstable_refl].
+  apply k_open_get in O. destruct O as [G _].
+  destruct (vkind v =? K_EVENTFD).
+  { destruct (c <? 8); [apply kstable_refl|]. cbn [fst]. eapply kstable_put; [eassumption|tauto|tauto]. }
+  destruct (vkind v =? K_PIPE_W); [|apply kstable_refl].
+  destruct (negb (vpeer_open v)); [apply kstable_refl|].
+  destruct (k_get k (vpeer v)) as [r|] eqn:GR; [|apply kstable_refl].
+  destruct (Z.min c (65536 - vcnt r) <=? 0); [apply kstable_refl|].
+  cbn [fst]. eapply kstable_put; [eassumption|tauto|tauto].
+Qed.
+
+Lemma kstable_settime : forall k fd d, kstable k (k_timerfd_settime k fd d).
+Proof.
+  intros k fd d. unfold k_timerfd_settime. destruct (k_open k fd) as [v|] eqn:O; [|apply kstable_refl].
+  apply k_open_get in O. destruct O as [G _]. eapply kstable_put; [eassumption|tauto|tauto].
+Qed.
+
+(* ---------- more on remove_z ---------- *)
+Lemma remz_app : forall x a b, remove_z x (a ++ b) = remove_z x a ++ remove_z x b.
+Proof.
+  intros x a b. induction a as [|y a IH]; cbn [remove_z app]; [reflexivity|].
+  destruct (y =? x); cbn [app]; rewrite IH; reflexivity.
+Qed.
+Lemma remz_length_nodup : forall x l, NoDup l -> In x l -> (length (remove_z x l) + 1 = length l)%nat.
+Proof.
+  intros x l ND. induction ND as [|a l NI ND IH]; intros H; [contradiction|].
+  cbn [remove_z length]. destruct (Z.eqb_spec a x) as [->|N].
+  - rewrite remz_notin by assumption. lia.
+  - destruct H as [H|H]; [contradiction|]. cbn [length]. rewrite <- (IH H). lia.
+Qed.
+Lemma memz_app : forall x a b, mem_z x (a ++ b) = mem_z x a || mem_z x b.
+Proof. intros. unfold mem_z. apply existsb_app. Qed.
+
+(* ---------- allocation of descriptors ---------- *)
+Definition kfresh (k : kernel) : Prop := forall fd, k_get k fd <> None -> fd < next_fd k.
+
+Lemma kfresh_next_none : forall k n, kfresh k -> next_fd k <= n -> k_get k n = None.
+Proof.
+  intros k n F H. destruct (k_get k n) eqn:G; [|reflexivity].
+  assert (n < next_fd k) by (apply F; congruence). lia.
+Qed.
+
+Lemma alloc_spec : forall k kind, kfresh k ->
+  fst (k_alloc k kind) = next_fd k /\ kstable k (snd (k_alloc k kind)) /\
+  next_fd (snd (k_alloc k kind)) = next_fd k + 1 /\
+  k_get (snd (k_alloc k kind)) (next_fd k) = Some (vfd0 kind) /\ kfresh (snd (k_alloc k kind)) /\
+  k_get k (next_fd k) = None.
+Proof.
+  intros k kind F. unfold k_alloc. cbn [fst snd].
+  assert (N : k_get k (next_fd k) = None) by (apply kfresh_next_none; [assumption|lia]).
+  split; [reflexivity|]. split; [|split; [reflexivity|split; [|split; [|assumption]]]].
+  - constructor; try reflexivity.
+    + cbn. lia.
+    + intros x v H. rewrite k_get_put. destruct (Z.eqb_spec x (next_fd k)) as [Q|Q].
+      * subst x. congruence.
+      * exists v. split; [exact H|tauto].
+    + intros x H. rewrite k_get_put. destruct (Z.eqb_spec x (next_fd k)) as [Q|Q]; [right; right; cbn; lia|left; exact H].
+  - rewrite k_get_put, Z.eqb_refl. reflexivity.
+  - intros x H. rewrite k_get_put in H. cbn [next_fd k_put k_set_vfds k_set_next].
+    destruct (Z.eqb_spec x (next_fd k)) as [Q|Q]; [lia|]. apply F in H. lia.
+Qed.
+
+Lemma kfresh_stable_put : forall k fd v, kfresh k -> k_get k fd <> None -> kfresh (k_put k fd v).
+Proof.
+  intros k fd v F G x H. rewrite k_get_put in H. change (next_fd (k_put k fd v)) with (next_fd k).
+  destruct (Z.eqb_spec x fd) as [Q|N]; [subst x|]; apply F; assumption.
+Qed.
+
+Lemma k_get_set_next : forall k n fd, k_get (k_set_next k n) fd = k_get k fd.
+Proof. reflexivity. Qed.
+Lemma k_open_set_next : forall k n fd, k_open (k_set_next k n) fd = k_open k fd.
+Proof. reflexivity. Qed.
+Ltac kget := repeat (rewrite k_get_put || rewrite k_get_set_next).
+Ltac kopen := repeat (rewrite k_open_put || rewrite k_open_set_next).
+
+(* pipe(): two fresh descriptors, paired *)
+Lemma pipe_spec : forall k, kfresh k ->
+  match k_pipe k with
+  | (k', None) => k' = k /\ emfile (flt k) = true
+  | (k', Some (r, w)) =>
+      emfile (flt k) = false /\ r = next_fd k /\ w = next_fd k + 1 /\ kstable k k' /\ kfresh k' /\
+      k_open k' r = Some (with_peer (vfd0 K_PIPE_R) w true) /\
+      k_open k' w = Some (with_peer (vfd0 K_PIPE_W) r true)
+  end.
+Proof.
+  intros k F. unfold k_pipe. destruct (emfile (flt k)) eqn:E; [tauto|].
+  unfold k_alloc. cbn [fst snd next_fd k_put k_set_vfds k_set_next].
+  set (n := next_fd k).
+  assert (N0 : k_get k n = None) by (apply kfresh_next_none; [assumption|subst n; lia]).
+  assert (N1 : k_get k (n + 1) = None) by (apply kfresh_next_none; [assumption|subst n; lia]).
+  split; [reflexivity|]. split; [reflexivity|]. split; [reflexivity|].
+  split; [|split].
+  - constructor; try reflexivity.
+    + cbn. fold n. lia.
+    + intros x v H. kget.
+      destruct (Z.eqb_spec x (n + 1)) as [Q|Q]; [subst x; unfold k_get in *; cbn in *; congruence|].
+      destruct (Z.eqb_spec x n) as [Q'|Q']; [subst x; unfold k_get in *; cbn in *; congruence|].
+      exists v. split; [exact H|tauto].
+    + intros x H. kget. cbn [next_fd k_put k_set_vfds k_set_next]. fold n.
+      destruct (Z.eqb_spec x (n + 1)) as [Q|Q]; [right; right; lia|].
+      destruct (Z.eqb_spec x n) as [Q'|Q']; [right; right; lia|]. left. exact H.
+  - intros x H. repeat (rewrite k_get_put in H || rewrite k_get_set_next in H). cbn [next_fd k_put k_set_vfds k_set_next]. fold n.
+    destruct (Z.eqb_spec x (n + 1)) as [Q|Q]; [lia|].
+    destruct (Z.eqb_spec x n) as [Q'|Q']; [lia|].
+    assert (x < n) by (apply F; exact H). lia.
+  - split.
+    + kopen. destruct (Z.eqb_spec n (n + 1)); [lia|]. rewrite Z.eqb_refl. reflexivity.
+    + kopen. rewrite Z.eqb_refl. reflexivity.
+Qed.
+
+Lemma eventfd_spec : forall k b, kfresh k ->
+  match k_eventfd k b with
+  | (k', inl fd) => fd = next_fd k /\ kstable k k' /\ kfresh k' /\ k_open k' fd = Some (vfd0 K_EVENTFD) /\
+                    emfile (flt k) = false /\ no_eventfd (flt k) = false
+  | (k', inr e) => k' = k /\ ((e = EMFILE /\ emfile (flt k) = true) \/
+                              (e = ENOSYS /\ emfile (flt k) = false /\
+                               (no_eventfd (flt k) = true \/ (b = true /\ no_eventfd2 (flt k) = true))))
+  end.
+Proof.
+  intros k b F. unfold k_eventfd. destruct (emfile (flt k)) eqn:E; [split; [reflexivity|left; tauto]|].
+  destruct (no_eventfd (flt k)) eqn:N1; cbn [orb].
+  { split; [reflexivity|right; tauto]. }
+  destruct b; cbn [andb]; [destruct (no_eventfd2 (flt k)) eqn:N2; [split; [reflexivity|right; tauto]|]|].
+  all: destruct (alloc_spec k K_EVENTFD F) as (A1 & A2 & A3 & A4 & A5 & A6);
+    destruct (k_alloc k K_EVENTFD) as [fd k1]; cbn [fst snd] in *; subst fd;
+    (split; [reflexivity|]); (split; [assumption|]); (split; [assumption|]);
+    (split; [apply k_get_open; [assumption|reflexivity]|tauto]).
+Qed.
+
+Lemma grab_spec : forall k in_use, kfresh k -> (in_use = 0 \/ in_use = 1 \/ in_use = 2) ->
+  match eventfd_grab k in_use with
+  | (k', inl fd, u) => fd = next_fd k /\ kstable k k' /\ kfresh k' /\ k_open k' fd = Some (vfd0 K_EVENTFD) /\
+                       no_eventfd (flt k) = false /\ emfile (flt k) = false /\ (u = 1 \/ u = 2) /\ in_use <> 0
+  | (k', inr e, u) => k' = k /\
+       ((is_enosys e = true /\ u = 0 /\ (in_use = 0 \/ no_eventfd (flt k) = true)) \/
+        (is_enosys e = false /\ emfile (flt k) = true /\ u = in_use /\ in_use <> 0))
+  end.
+Proof.
+  intros k in_use F IU. unfold eventfd_grab.
+  assert (OLD : forall iu, iu = 0 \/ iu = 1 ->
+    match (if negb (iu =? 0) then
+             match k_eventfd k false with
+             | (k1, inl fd) => (k1, inl fd, iu)
+             | (k1, inr e) => if is_enosys e then (k1, inr ENOSYS, 0) else (k1, inr e, iu)
+             end
+           else (k, inr ENOSYS, 0)) with
+    | (k', inl fd, u) => fd = next_fd k /\ kstable k k' /\ kfresh k' /\ k_open k' fd = Some (vfd0 K_EVENTFD) /\
+                         no_eventfd (flt k) = false /\ emfile (flt k) = false /\ u = iu /\ iu <> 0
+    | (k', inr e, u) => k' = k /\
+         ((is_enosys e = true /\ u = 0 /\ (iu = 0 \/ no_eventfd (flt k) = true)) \/
+          (is_enosys e = false /\ emfile (flt k) = true /\ u = iu /\ iu <> 0))
+    end).
+  { intros iu [->| ->]; cbn [Z.eqb negb].
+    - split; [reflexivity|left; tauto].
+    - pose proof (eventfd_spec k false F) as S. destruct (k_eventfd k false) as [k1 [fd|e]].
+      + destruct S as (A&B&C&D&E&G). splits; try assumption; lia.
+      + destruct S as (-> & [(-> & E)|(-> & E & [N|(B&_)])]); cbn [is_enosys].
+        * split; [reflexivity|right]. splits; try assumption; lia.
+        * split; [reflexivity|left; tauto].
+        * discriminate. }
+  destruct IU as [->|[->| ->]].
+  - change (0 =? 2) with false. cbv iota. specialize (OLD 0 (or_introl eq_refl)). cbn [Z.eqb negb] in OLD. exact OLD.
+  - change (1 =? 2) with false. cbv iota. specialize (OLD 1 (or_intror eq_refl)).
+    destruct (if negb (1 =? 0) then _ else _) as [[k' [fd|e]] u]; [|exact OLD].
+    destruct OLD as (A&B&C&D&E&G&H&J). splits; try assumption; lia.
+  - change (2 =? 2) with true. cbv iota.
+    pose proof (eventfd_spec k true F) as S. destruct (k_eventfd k true) as [k1 [fd|e]].
+    + destruct S as (A&B&C&D&E&G). splits; try assumption; lia.
+    + destruct S as (-> & [(-> & E)|(-> & E & N)]); cbn [is_enosys is_einval orb].
+      * split; [reflexivity|right]. splits; try assumption; lia.
+      * specialize (OLD 1 (or_intror eq_refl)).
+        destruct (if negb (1 =? 0) then _ else _) as [[k' [fd|e]] u].
+        -- destruct OLD as (A&B&C&D&E'&G&H&J). splits; try assumption; lia.
+        -- destruct OLD as (A & [(B&C&D)|(B&C&D&_)]); split; try assumption.
+           ++ left. splits; try assumption. destruct D as [D|D]; [lia|right; assumption].
+           ++ congruence.
 Qed.
